@@ -272,6 +272,9 @@ void to_value_ptr(const VNode &n, Value<Char_T> &v, std::deque<Value<Char_T>> &p
 
 // ------------------------------------------------------------------------------------------------ reference helpers
 std::string escape_html(const std::string &s) { // reference escaper (C03's specification)
+    if (!Qentem::Config::AutoEscapeHTML) { // -DQENTEM_AUTO_ESCAPE_HTML=0: {var:} prints like {raw:}
+        return s;
+    }
     static const char *ents[] = {"&amp;", "&lt;", "&gt;", "&quot;", "&apos;"};
     std::string        o;
     for (size_t i = 0; i < s.size(); ++i) {
